@@ -93,4 +93,6 @@ THEOREMS = [
     ("DastardV.Lemmas.ComposeEndToEnd", "DastardV.Compose.abaco_to_ljh22_file"),
     ("DastardV.Lemmas.ComposeEndToEnd", "DastardV.Compose.lancero_to_ljh22_file"),
     ("DastardV.Lemmas.ComposeEndToEnd", "DastardV.Compose.prepared_source_to_ljh22_file"),
+    ("DastardV.Lemmas.ComposeEndToEnd", "DastardV.Compose.lancero_card_to_files"),
+    ("DastardV.Lemmas.ComposeEndToEnd", "DastardV.Compose.abaco_packets_to_files"),
 ]
